@@ -77,7 +77,7 @@ Definition runs_after_cancel (chron : list event) (u : uid) (t : tid) (i : idx) 
 (* hand case 5 of gen/c17.py: thread 0 runs callback 1.0 (body: two-argument cancel-and-wait on id 0)
    while thread 1 has passed the generation check for callback 0.0 of the same id *)
 Definition wit_progs : list (list cmd) :=
-  [[Post 1 KNormal (Some 0) 1; Dispatch false]; [Post 0 KNormal (Some 0) 0; Dispatch false]].
+  [[Post 1 KNormal (Some 0) 1; Dispatch (false, [])]; [Post 0 KNormal (Some 0) 0; Dispatch (false, [])]].
 Definition wit_bodies : list (list cmd) := [[CancelWait2 0]; []].
 Definition wit_sched : list tid :=
   [0;0;0;0;1;1;1;1;0;0;0;0;1;1;1;0;0;0;0;0;0;0;1;1;1;1].
@@ -92,7 +92,7 @@ Qed.
 
 (* mutual cancellation with the SINGLE-argument form deadlocks: both wait for the other's count *)
 Definition dead_progs : list (list cmd) :=
-  [[Post 1 KNormal (Some 0) 0; Dispatch false]; [Post 0 KNormal (Some 0) 0; Dispatch false]].
+  [[Post 1 KNormal (Some 0) 0; Dispatch (false, [])]; [Post 0 KNormal (Some 0) 0; Dispatch (false, [])]].
 Definition dead_bodies : list (list cmd) := [[CancelWait 0]].
 Definition rr (n : nat) : list tid := concat (repeat [0; 1] n).
 Lemma single_arg_mutual_cancel_deadlocks :
